@@ -299,11 +299,14 @@ class EventMixin (object):
     # processing.  It might make sense to change this.
     handlers = list(self._eventMixin_handlers.get(eventType, []))
     for (priority, handler, once, eid) in handlers:
-      if classCall:
-        rv = event._invoke(handler, *args, **kw)
-      else:
-        rv = handler(event, *args, **kw)
-      if once: self.removeListener(eid)
+      try:
+        if classCall:
+          rv = event._invoke(handler, *args, **kw)
+        else:
+          rv = handler(event, *args, **kw)
+      finally:
+        # A one-shot handler has had its shot, even if it raised
+        if once: self.removeListener(eid)
       if rv is None: continue
       if rv is False:
         self.removeListener(eid)
